@@ -109,6 +109,34 @@ def classify(e, selfn, memon):
     return ('other', stmt_text(e), False)
 
 
+def _foreign_guard(f, stmt, F, selfn):
+    """innermost enclosing `if` of the assignment whose test does not mention self.F (None when unguarded, when the
+    guard tests the copied field itself, or when the other branch assigns the field too)."""
+    if not isinstance(stmt, ast.Assign):
+        return None
+    pm = {}
+    for n in ast.walk(f.node):
+        for ch in ast.iter_child_nodes(n):
+            pm[id(ch)] = n
+    cur = stmt
+    while id(cur) in pm:
+        par = pm[id(cur)]
+        if isinstance(par, ast.If):
+            mentions = any(isinstance(x, ast.Attribute) and x.attr == F for x in ast.walk(par.test))
+            memo_test = any(isinstance(x, ast.Call) and isinstance(x.func, ast.Name) and x.func.id == 'id'
+                            for x in ast.walk(par.test))
+            in_body = any(cur is s_ or any(y is cur for y in ast.walk(s_)) for s_ in par.body)
+            other = par.orelse if in_body else par.body
+            other_assigns = any(isinstance(y, ast.Assign) and any(
+                isinstance(t, ast.Attribute) and t.attr == F for t in y.targets) for s_ in other for y in ast.walk(s_))
+            if not mentions and not memo_test and not other_assigns:
+                return par
+        if isinstance(par, (ast.For, ast.While)):
+            return None
+        cur = par
+    return None
+
+
 def _memo_index(e, memon):
     """memo[id(V)] -> V name"""
     if isinstance(e, ast.Subscript) and isinstance(e.value, ast.Name) and e.value.id == memon:
@@ -226,6 +254,16 @@ def run(ctx) -> list[Inst]:
                 continue
             kind, src, has_memo = classify(val[0], selfn, memon)
             line = val[0].lineno
+            # the field is given its value only under a test of something else
+            foreign = _foreign_guard(f, val[1], F, selfn)
+            if foreign is not None:
+                insts.append(Inst(
+                    RULE, f.short, construct, 'violation',
+                    msg=(f"'{stmt_text(val[1], 70)}' runs only 'if {stmt_text(foreign.test, 60)}', a test that does not "
+                         f"look at {F}: when it fails the copy keeps an empty / default {F} although the original has "
+                         f"content"),
+                    file=rel, line=line, props=props))
+                continue
             if is_container(t):
                 if kind == 'empty':
                     if F in appended_in_loop:
